@@ -177,7 +177,7 @@ def run(ctx):
     refs = [rp.reference(n, a) for n, a in cases]
     per_fun = {}
     for (n, _), r in zip(cases, refs):
-        d = per_fun.setdefault(n, {"cases": 0, "val": 0, "exc": 0, "any": 0})
+        d = per_fun.setdefault(n, {"cases": 0, "val": 0, "exc": 0, "any": 0, "lit": 0})
         d["cases"] += 1
         d[r[0]] += 1
 
@@ -247,7 +247,7 @@ def run(ctx):
             matched(n, nt, ref[1])
             continue
         cli = f"garden run -c '{single_job(n, a)['src'].strip()}'"
-        det = {"call": call, "documented": ref[1] if ref[0] == "val" else ("an exception" if ref[0] == "exc" else f"unspecified ({ref[1]}): value or error, must terminate")}
+        det = {"call": call, "documented": ref[1] if ref[0] == "val" else ("an exception" if ref[0] == "exc" else f"indices outside ({ref[2]}): a Garden error, or exactly the items in range: {ref[1]}" if ref[0] == "lit" else f"unspecified ({ref[1]}): value or error, must terminate")}
 
         def viol(what, **kw):
             pending.append((n, classify(n, a), what, dict(det, src=single_job(n, a)["src"], expect=what_expect(what), **kw), cli))
@@ -274,6 +274,12 @@ def run(ctx):
                     viol("wrong value", observed=got)
             elif ref[0] == "exc":
                 viol("no exception", observed=got)
+            elif ref[0] == "lit":
+                if got == ref[1]:
+                    unspec(n, a, "value")
+                    ctx.outcome("outside indices: the items in range")
+                else:
+                    viol("wrong value", observed=got)
             else:
                 unspec(n, a, "value")
             continue
@@ -319,7 +325,7 @@ def run(ctx):
             if not ctx.cov["outcomes"].get(key):
                 raise Machinery(f"vacuous: no case with outcome {key!r}")
     ctx.bound("cases_per_function", {n: d["cases"] for n, d in per_fun.items()})
-    ctx.bound("documented_value/documented_exception/unspecified", [sum(d[k] for d in per_fun.values()) for k in ("val", "exc", "any")])
+    ctx.bound("documented_value/documented_exception/unspecified/outside_indices", [sum(d[k] for d in per_fun.values()) for k in ("val", "exc", "any", "lit")])
     ctx.bound("distinct_matching_results", {n: len(s) for n, s in sorted(seen_texts.items())})
     ctx.bound("matches_with_nontrivial_args", dict(sorted(nt_matches.items())))
     ctx.bound("unspecified_cases_observed", dict(sorted(unspecified.items())))
